@@ -8,6 +8,7 @@ rules treat that as UNKNOWN, never as a violation.
 from __future__ import annotations
 
 import ast
+import copy
 import os
 from dataclasses import dataclass, field
 from typing import Dict, Iterable, Iterator, List, Optional, Tuple
@@ -164,6 +165,65 @@ def _normalise(tree):
             return n
     tree = _Empty().visit(tree)
     ast.fix_missing_locations(tree)
+    # a local that merely names an attribute chain of self (`pm = self.path_manager`) is replaced by the chain in the statements that
+    # follow it in the same block, up to its next assignment: rules then see `self.path_manager.add_path(...)` either way
+    def is_self_chain(e) -> bool:
+        while isinstance(e, ast.Attribute):
+            e = e.value
+        return isinstance(e, ast.Name) and e.id == "self"
+
+    class _Subst(ast.NodeTransformer):
+        def __init__(self, name, expr):
+            self.name, self.expr = name, expr
+
+        def visit_Name(self, n):
+            if n.id == self.name and isinstance(n.ctx, ast.Load):
+                return ast.copy_location(copy.deepcopy(self.expr), n)
+            return n
+
+        def visit_FunctionDef(self, n):
+            return n
+        visit_AsyncFunctionDef = visit_Lambda = visit_ClassDef = visit_FunctionDef
+
+    def assigns(st, name) -> bool:
+        for x in ast.walk(st):
+            if isinstance(x, ast.Name) and x.id == name and isinstance(x.ctx, (ast.Store, ast.Del)):
+                return True
+        return False
+
+    def propagate(block):
+        i = 0
+        while i < len(block):
+            st = block[i]
+            if isinstance(st, ast.Assign) and len(st.targets) == 1 and isinstance(st.targets[0], ast.Name) \
+                    and isinstance(st.value, ast.Attribute) and is_self_chain(st.value):
+                name = st.targets[0].id
+                chain = dotted(st.value) or ""
+                # the local is a snapshot of the value: it stops being a name for the chain as soon as the chain (or a prefix of it)
+                # is stored to anywhere in the rest of the block (`old = self.x; self.x = new; ...; self.x = old`)
+                def stores_chain(x) -> bool:
+                    for y in ast.walk(x):
+                        if isinstance(y, ast.Attribute) and isinstance(y.ctx, (ast.Store, ast.Del)):
+                            d_ = dotted(y) or ""
+                            if d_ and (chain == d_ or chain.startswith(d_ + ".")):
+                                return True
+                    return False
+                if any(stores_chain(x) for x in block[i + 1:]):
+                    i += 1
+                    continue
+                j = i + 1
+                while j < len(block) and not assigns(block[j], name):
+                    block[j] = _Subst(name, st.value).visit(block[j])
+                    j += 1
+                # a compound statement that re-assigns the name somewhere inside is left alone from there on
+            i += 1
+    for node in ast.walk(tree):
+        if isinstance(node, (ast.FunctionDef, ast.AsyncFunctionDef)):
+            for sub in ast.walk(node):
+                for fld in ("body", "orelse", "finalbody"):
+                    b = getattr(sub, fld, None)
+                    if isinstance(b, list) and b and isinstance(b[0], ast.stmt):
+                        propagate(b)
     # `if not c: A else: B` (B not an elif chain) is `if c: B else: A`: one polarity only, so that rules need not know both
     for node in ast.walk(tree):
         if isinstance(node, ast.If) and node.orelse and isinstance(node.test, ast.UnaryOp) and isinstance(node.test.op, ast.Not) \
